@@ -178,7 +178,7 @@ def check(case):
             # a planned fault may turn out harmless (a swallowed close() error, a tampering aimed at a reply that was
             # never produced): then, and only for injected faults, the genuine hit is the right answer
             # and with the keys spread over several servers of which one fails, the other servers' items are still found
-            partial = (ftype in ("fault", "faults") and kind.startswith("hash") and case.get("nservers", 1) > 1 and isinstance(got, dict)
+            partial = (ftype in ("fault", "faults") and kind.startswith(("hash", "aws")) and case.get("nservers", 1) > 1 and isinstance(got, dict)
                        and isinstance(hit, dict) and type(got) is type(hit) and all(k in hit and _equal_hit({k: v}, {k: hit[k]}) for k, v in got.items()))
             if not (ftype in ("fault", "faults") and _equal_hit(got, hit)) and not partial:
                 raise Violation(["shape", kind, call["op"]], "returned %s, a miss returns %s (hit would be %s): %s"
@@ -277,7 +277,9 @@ CALLS = [
 STACKS = [("client", 1, {}), ("pooled", 1, {"max_pool_size": 1}), ("hash", 1, {}), ("hash-pooled", 1, {}), ("hash", 3, {}), ("hash-pooled", 2, {}),
           # servers put into rotation at run time through add_server, in its various spellings, host names with capitals
           ("hash", 1, {"add_at_runtime": 0, "hosts": ["Cache-A"]}), ("hash-pooled", 2, {"add_at_runtime": 1, "hosts": ["Cache-A", "MC.Example.COM"]}),
-          ("hash", 2, {"add_at_runtime": 2, "hosts": ["Cache-A", "mc2"]}), ("hash", 1, {"add_at_runtime": 4, "hosts": ["CACHE"]})]
+          ("hash", 2, {"add_at_runtime": 2, "hosts": ["Cache-A", "mc2"]}), ("hash", 1, {"add_at_runtime": 4, "hosts": ["CACHE"]}),
+          # the ElastiCache subclass of HashClient (it re-implements the constructor), its nodes learnt from a configuration endpoint
+          ("aws", 1, {}), ("aws-pooled", 2, {}), ("aws", 3, {})]
 
 
 def sweep_cases(tier, seed):
@@ -289,7 +291,7 @@ def sweep_cases(tier, seed):
                 yield dict(base, failure={"type": "down", "what": what})
             for how in ("raise", "badutf8"):
                 yield dict(base, failure={"type": "serde", "how": how})
-            if kind.startswith("hash"):
+            if kind.startswith(("hash", "aws")):
                 yield dict(base, failure={"type": "retry-window"})
                 yield dict(base, cfg=dict(extra, retry_attempts=0), failure={"type": "all-dead"})
                 yield dict(base, cfg=dict(extra, retry_attempts=1), failure={"type": "retry-window"})
@@ -361,7 +363,7 @@ def random_strategy(tier):
     def mk(stk, call, failure, ra, pieces, co):
         kind, n, extra = stk
         cfg = dict(extra)
-        if kind.startswith("hash"):
+        if kind.startswith(("hash", "aws")):
             cfg["retry_attempts"] = ra
         elif failure["type"] in ("retry-window", "all-dead"):
             failure = {"type": "down", "what": "refused"}
